@@ -421,6 +421,7 @@ def run_scenario(sc):
         w.run(until=horizon + 10)
         traps.flush()
     tr.unhandled = traps.unhandled
+    tr.second_firings = traps.second_firings
     tr.logged = traps.errors_logged
     return tr
 
